@@ -55,8 +55,13 @@ func c09Read(c *net.UDPConn, b, oob []byte) (n, oobn, flags int, addr netip.Addr
 	if d.readErr {
 		return 0, 0, 0, netip.AddrPort{}, errC09
 	}
-	copy(b, d.data[:d.n])
-	return d.n, 0, d.flags, d.src, nil
+	// a datagram longer than the buffer is cut off and flagged MSG_TRUNC, as recvmsg does
+	n, fl := d.n, d.flags
+	if n > len(b) {
+		n, fl = len(b), fl|0x20
+	}
+	copy(b, d.data[:n])
+	return n, 0, fl, d.src, nil
 }
 
 func c09TimestampFromOOB(oob []byte) (time.Time, error) {
@@ -103,7 +108,11 @@ func c09validRequest(first byte) bool {
 // every datagram gets exactly one reply if it is a plain 48-byte client request and none otherwise
 // (datagrams longer than 48 bytes would have to carry a valid NTS request; nothing of at most
 // 48+maxExtra bytes can - the authenticated path is checked separately), to the sender's address and port
-func c09Listener(k, maxExtra int) {
+func c09Listener(k, maxExtra int) { c09ListenerX(k, maxExtra, -1) }
+
+// firstShort >= 0: the first datagram has that many bytes (fewer than an NTP packet, so it is dropped before
+// any request handling): what the listener does with the following datagrams must not depend on it
+func c09ListenerX(k, maxExtra int, firstShort int) {
 	c06clock()
 	tss = make(map[string]*tssItem)
 	tssQ = make(tssQueue, 0, 8)
@@ -117,6 +126,9 @@ func c09Listener(k, maxExtra int) {
 		d.src = c09addr("dg.src")
 		d.flags = v.Int("dg.flags")
 		d.readErr = v.Bool("dg.readerr")
+		if firstShort >= 0 && i == 0 {
+			d.n, d.flags, d.readErr = firstShort, 0, false
+		}
 	}
 	var provider *ntske.Provider
 	if v.Native() {
@@ -152,8 +164,10 @@ func c09Listener(k, maxExtra int) {
 	v.Reach("C09.listener")
 }
 
-func VerifC09Listener1() { c09Listener(1, 8) }
-func VerifC09Listener2() { c09Listener(2, 8) }
+func VerifC09Listener1()           { c09Listener(1, 8) }
+func VerifC09Listener2()           { c09Listener(2, 8) }
+func VerifC09ListenerAfterDrop1()  { c09ListenerX(2, 8, 1) }
+func VerifC09ListenerAfterDrop47() { c09ListenerX(2, 8, 47) }
 
 // native replay: the real listener on a loopback socket; each datagram is sent from a socket bound to
 // its source address (127.x.y.z) and the replies arriving there are recorded
